@@ -503,7 +503,7 @@ func RunCheck(cs *CheckSpec) int {
 			va := a.viol[key]
 			if va.v.Property != cs.Property {
 				total.stats["other_property_violations_seen"] += int64(va.count)
-				fmt.Printf("  note: %d run(s) hit %s/%s (reported by that property's check)\n", va.count, va.v.Property, va.v.Signature)
+				fmt.Printf("  note: %d run(s) hit %s (reported by that property's check); first: seed %d: %.300s\n", va.count, va.v.Signature, va.first.Seed, va.v.Detail)
 				continue
 			}
 			if _, isKnown := openSigs[va.v.Signature]; isKnown {
